@@ -28,7 +28,7 @@ FIELD_KEYS = ['memo', 'type', 'code', 'vendor']
 FIELD_VALUES = ['', '  ', 'ACH-OUT-123', 'WIRE', 'Invoice REF:77', 'PROJ:alpha', 'memo text', ' padded ', 'COST-CO']
 SOURCES = ['Amex', 'Chase', 'alice-amex', 'BANK']
 LOCATIONS = ['Seattle, WA', 'CA', 'NY']
-ROW_ITEMS = ['Book', 'USB Cable', 'coffee beans', 'Gift Card', '']
+ROW_ITEMS = ['Book', 'USB Cable', 'coffee beans', 'Gift Card', '', ' ']
 
 
 def ascii_fold(s: str) -> str:
